@@ -6,6 +6,7 @@ package pbt
 
 import (
 	"encoding/json"
+	"errors"
 	"fmt"
 	"hash/fnv"
 	"os"
@@ -282,6 +283,11 @@ func Main[C any](t *testing.T, p Prop[C]) {
 			if len(msg) > 4000 {
 				msg = msg[:4000] + "…"
 			}
+			if IsPoison(err) {
+				col.flush()
+				fmt.Printf("property %s/%s violated (process state no longer reliable, not shrinking): %s\ncase: %s\n", p.ID, p.Name, msg, trunc(string(raw), 1500))
+				os.Exit(1)
+			}
 			rt.Fatalf("property %s/%s violated: %s\ncase: %s", p.ID, p.Name, msg, trunc(string(raw), 1500))
 		}
 	})
@@ -294,8 +300,36 @@ func trunc(s string, n int) string {
 	return s
 }
 
+// poisonErr marks a failure after which the process can no longer be trusted
+// (a goroutine of the case is still blocked inside the library: a hang): the
+// runner writes the case to the fail file and exits at once instead of going
+// on to shrink, because every later case in this process could fail only
+// because of what the hung one left behind. The driver re-runs the saved case
+// in a fresh process before reporting anything.
+type poisonErr struct{ error }
+
+// Poison wraps err as a process-poisoning failure.
+func Poison(err error) error {
+	if err == nil {
+		return nil
+	}
+	return poisonErr{err}
+}
+
+// IsPoison reports whether err is (or wraps) a poisoning failure.
+func IsPoison(err error) bool {
+	var p poisonErr
+	return errors.As(err, &p)
+}
+
 // Errs accumulates oracle failures so that a run reports all of them.
-type Errs struct{ msgs []string }
+type Errs struct {
+	msgs   []string
+	poison bool
+}
+
+// Poison marks the accumulated failure as process-poisoning (see poisonErr).
+func (e *Errs) Poison() { e.poison = true }
 
 func (e *Errs) Addf(format string, a ...interface{}) {
 	if len(e.msgs) < 12 {
@@ -311,7 +345,11 @@ func (e *Errs) Err() error {
 	if len(e.msgs) == 0 {
 		return nil
 	}
-	return fmt.Errorf("%s", strings.Join(e.msgs, "\n"))
+	err := fmt.Errorf("%s", strings.Join(e.msgs, "\n"))
+	if e.poison {
+		return poisonErr{err}
+	}
+	return err
 }
 
 func (e *Errs) Failed() bool { return len(e.msgs) > 0 }
